@@ -41,6 +41,24 @@ pub struct OneCase {
     pub seq: Bytes,
     pub k: usize,
     pub norm: bool,
+    /// the sequence is repeated until it has at least this many bytes (0 = as it is): counts far
+    /// beyond 255 / 65535 in one column
+    #[serde(default)]
+    pub min_len: usize,
+}
+
+pub fn stretched(seq: &[u8], min_len: usize) -> Vec<u8> {
+    let mut out = seq.to_vec();
+    if !seq.is_empty() {
+        while out.len() < min_len {
+            out.extend_from_slice(seq);
+        }
+    }
+    out
+}
+
+pub fn min_len_strategy() -> BoxedStrategy<usize> {
+    prop_oneof![40 => Just(0usize), 3 => Just(600usize), 2 => Just(5_000usize), 1 => Just(70_000usize)].boxed()
 }
 
 thread_local! {
@@ -86,16 +104,19 @@ pub fn check_vector(got: &[f64], seq: &[u8], rt: &RankTable, norm: bool, tol: f6
 pub fn check_one(c: &OneCase) -> Verdict {
     let mut v = Verdict::new();
     let rt = rank_table(c.k);
-    classify(&mut v, &c.seq, &rt);
+    let seq = stretched(&c.seq, c.min_len);
+    classify(&mut v, &seq, &rt);
     v.class(format!("k={}", c.k));
+    v.class_if(seq.len() > 256, "len>256");
+    v.class_if(seq.len() > 65536, "len>65536");
     let oc = computer(c.k, c.norm);
     let tol = if c.norm { 1e-12 } else { 0.0 };
-    let base = oc.verif_vectorise_one(&c.seq);
-    if let Err((s, m)) = check_vector(&base, &c.seq, &rt, c.norm, tol) {
+    let base = oc.verif_vectorise_one(&seq);
+    if let Err((s, m)) = check_vector(&base, &seq, &rt, c.norm, tol) {
         v.fail(s, m);
         return v;
     }
-    for (name, variant) in [("revcomp", model::revcomp_text(&c.seq)), ("lower", lower(&c.seq)), ("t2u", t2u(&c.seq))] {
+    for (name, variant) in [("revcomp", model::revcomp_text(&seq)), ("lower", lower(&seq)), ("t2u", t2u(&seq))] {
         let r = oc.verif_vectorise_one(&variant);
         let differs = r.iter().zip(base.iter()).any(|(a, b)| (a - b).abs() > tol) || r.len() != base.len();
         if differs {
@@ -114,8 +135,8 @@ impl Leg for One {
     fn strategy(tier: Tier) -> BoxedStrategy<OneCase> {
         let max = tier.pick(300, 2000);
         (prop_oneof![8 => 1usize..=7, 1 => Just(8usize), 1 => Just(1usize)], any::<bool>())
-            .prop_flat_map(move |(k, norm)| (gen::seq(k, if k >= 7 { max / 2 } else { max }, false), Just(k), Just(norm)))
-            .prop_map(|(seq, k, norm)| OneCase { seq: Bytes(seq), k, norm })
+            .prop_flat_map(move |(k, norm)| (gen::seq(k, if k >= 7 { max / 2 } else { max }, false), Just(k), Just(norm), min_len_strategy()))
+            .prop_map(|(seq, k, norm, min_len)| OneCase { seq: Bytes(seq), k, norm, min_len })
             .boxed()
     }
     fn check(c: &OneCase) -> Verdict {
@@ -135,6 +156,20 @@ pub struct FileCase {
     pub delim: String,
     pub threads: usize,
     pub header: bool,
+    /// (record index, minimum length): that record is repeated to this length
+    #[serde(default)]
+    pub stretch: Option<(u16, usize)>,
+}
+
+fn materialise(c: &FileCase) -> Vec<Rec> {
+    let mut recs = c.recs.clone();
+    if let Some((i, min_len)) = c.stretch {
+        if !recs.is_empty() {
+            let idx = crate::util::idx16(i, recs.len());
+            recs[idx].seq = Bytes(stretched(&recs[idx].seq, min_len));
+        }
+    }
+    recs
 }
 
 /// every record followed by its reverse complement, lower-case and T->U variants
@@ -174,12 +209,14 @@ fn check_output(v: &mut Verdict, data: &[u8], all: &[Rec], rt: &RankTable, norm:
 pub fn check_file(c: &FileCase) -> Verdict {
     let mut v = Verdict::new();
     let rt = rank_table(c.k);
-    for r in &c.recs {
+    let recs = materialise(c);
+    for r in &recs {
         classify(&mut v, &r.seq, &rt);
     }
     v.class(format!("k={}", c.k));
     v.class(format!("{:?}-{}", c.writer, if c.norm { "norm" } else { "counts" }));
-    let all = with_variants(&c.recs);
+    v.class_if(recs.iter().any(|r| r.seq.0.len() > 256), "record>256");
+    let all = with_variants(&recs);
     let dir = crate::scratch_dir();
     let input = io::write_input(dir.path(), "in", &all, &Container::plain_fasta());
     let out = dir.path().join("out.txt");
@@ -214,7 +251,8 @@ fn file_strategy(tier: Tier, cli: bool) -> BoxedStrategy<FileCase> {
                 nuc_only: false,
             };
             let writer = if mmap && norm { Writer::Mmap } else { Writer::Batch };
-            gen::records(p).prop_map(move |recs| FileCase { recs, k, norm, writer, delim: delim.to_string(), threads, header })
+            (gen::records(p), prop_oneof![12 => Just(None), 2 => (any::<u16>(), Just(600usize)).prop_map(Some), 1 => (any::<u16>(), Just(5_000usize)).prop_map(Some), 1 => (any::<u16>(), Just(70_000usize)).prop_map(Some)])
+                .prop_map(move |(recs, stretch)| FileCase { recs, k, norm, writer, delim: delim.to_string(), threads, header, stretch })
         })
         .boxed()
 }
@@ -234,12 +272,14 @@ impl Leg for Files {
 pub fn check_cli(c: &FileCase) -> Verdict {
     let mut v = Verdict::new();
     let rt = rank_table(c.k);
-    for r in &c.recs {
+    let recs = materialise(c);
+    for r in &recs {
         classify(&mut v, &r.seq, &rt);
     }
     v.class(format!("k={}", c.k));
     v.class(format!("cli-{}", if c.norm { "norm" } else { "counts" }));
-    let all = with_variants(&c.recs);
+    v.class_if(recs.iter().any(|r| r.seq.0.len() > 256), "record>256");
+    let all = with_variants(&recs);
     if all.is_empty() {
         // an empty input is C16's subject
         v.class("skipped-empty");
@@ -296,7 +336,7 @@ pub fn ascii_only(seq: &[u8]) -> Vec<u8> {
 pub fn check_python(c: &OneCase) -> Verdict {
     let mut v = Verdict::new();
     let rt = rank_table(c.k);
-    let seq = ascii_only(&c.seq);
+    let seq = ascii_only(&stretched(&c.seq, c.min_len));
     classify(&mut v, &seq, &rt);
     v.class("python");
     let tol = if c.norm { 1e-12 } else { 0.0 };
